@@ -225,11 +225,12 @@ def c09_bounded(tier, seed):
         # a module that already holds / comes to hold a ZERO-SIZED block sharing an address with another block: a code block with
         # an incoming branch that is followed by data cannot be removed (doc/Deletion.md) and stays as an empty block; a later
         # context must order it before the block at the same address, as the IR does
-        from gtirb_test_helpers import add_data_block
+        from gtirb_test_helpers import add_data_block, add_proxy_block
 
         def zs_build():
             ir, m = create_test_module(gtirb.Module.FileFormat.ELF, gtirb.Module.ISA.X64)
             _, tbi = add_text_section(m, address=0x1000)
+            pre = add_code_block(tbi, b"\x90\xc3")            # a block directly in front of the one that will stay zero-sized
             foo = add_code_block(tbi, b"\x0f\x0b")
             dat = add_data_block(tbi, b"\x2a")
             foo_s = add_symbol(m, "foo", foo)
@@ -237,7 +238,8 @@ def c09_bounded(tier, seed):
             add_symbol(m, "bar", bar)
             tail = add_code_block(tbi, b"\x90\xc3")
             add_edge(ir.cfg, bar, foo, gtirb.EdgeType.Branch)
-            return ir, m, {"foo": foo, "data": dat, "bar": bar, "tail": tail}
+            add_edge(ir.cfg, pre, add_proxy_block(m), gtirb.EdgeType.Return)
+            return ir, m, {"pre": pre, "foo": foo, "data": dat, "bar": bar, "tail": tail}
 
         def zs_summary(ir, m):
             blocks = sorted(m.byte_blocks, key=lambda b: (b.address, b.size != 0))
@@ -246,7 +248,7 @@ def c09_bounded(tier, seed):
             return json.dumps({"blocks": [(type(b).__name__, b.address, b.size, bytes(b.contents).hex()) for b in blocks],
                                "symbols": sorted((s_.name, node(s_.referent), s_.at_end) for s_ in m.symbols if s_.name in ("foo", "bar")),
                                "edges": sorted((node(e.source), node(e.target), e.label.type.name) for e in ir.cfg)}, sort_keys=True)
-        for dels in (("foo", "data"), ("foo", "bar"), ("foo", "data", "tail"), ("data", "tail"), ("foo", "tail")):
+        for dels in (("foo", "data"), ("foo", "bar"), ("foo", "data", "tail"), ("data", "tail"), ("foo", "tail"), ("pre", "foo"), ("pre", "foo", "data")):
             br.cases += 1
             ir, m, B = zs_build()
             rc = RW.RewritingContext(m, [])
@@ -316,6 +318,33 @@ def c10_bounded(tier, seed):
             distinct.add(("noop", kind, funcs, cfi, ann, df))
             if _dump(ir) != before:
                 br.failures.append({"clause": "C10/no-op-apply-is-the-identity", "witness": {"shape": [kind, funcs, cfi, ann, df]}, "detail": "canonical dump changed"})
+        # no-op apply on modules that hold ZERO-SIZED blocks (at the end / in the middle of an interval) with interval-keyed and block-keyed
+        # Offset entries exactly at their position
+        for where, keyed in itertools.product(("end", "middle", "start"), ("interval", "block")):
+            ir, m = create_test_module(gtirb.Module.FileFormat.ELF, gtirb.Module.ISA.X64)
+            _, tbi = add_text_section(m, address=0x1000)
+            b0 = add_code_block(tbi, b"\x90\x90")
+            b1 = add_code_block(tbi, b"\x90\xc3")
+            zoff = {"end": 4, "middle": 2, "start": 0}[where]
+            z = gtirb.CodeBlock(offset=zoff, size=0)
+            z.byte_interval = tbi
+            add_edge(ir.cfg, b0, b1, gtirb.EdgeType.Fallthrough)
+            add_edge(ir.cfg, b1, add_proxy_block(m), gtirb.EdgeType.Return)
+            add_edge(ir.cfg, z, add_proxy_block(m), gtirb.EdgeType.Fallthrough)
+            key = gtirb.Offset(tbi, zoff) if keyed == "interval" else gtirb.Offset(z, 0)
+            _auxdata.comments.set(m, {key: "at the empty block", gtirb.Offset(tbi, 1): "inside b0"})
+            _auxdata.padding.set(m, {key: 3})
+            before = _dump(ir)
+            br.cases += 1
+            distinct.add(("noop-zero-sized", where, keyed))
+            try:
+                RW.RewritingContext(m, []).apply()
+                after = _dump(ir)
+            except Exception as e:       # noqa
+                after = "%s: %s" % (type(e).__name__, str(e)[:80])
+            if after != before:
+                br.failures.append({"clause": "C10/no-op-apply-is-the-identity", "witness": {"zero-sized block at the": where, "entries keyed by": keyed},
+                                    "detail": "canonical dump changed" if not after.startswith(("Ass", "Key", "Val", "Typ", "Att")) else after})
         S = 5
         cands = [(o, s) for o in range(S + 1) for s in range(0, S - o + 1)]
         sym = gtirb.Symbol("s")
@@ -577,7 +606,8 @@ def c11_bounded(tier, seed):
         stride = 3 if tier == "quick" else 1
         kinds = ["plain", "call", "jcc"] if tier == "quick" else None
         br.bound = "every %d-th scenario of the bounded space (kinds %s), each executed in fresh interpreters with PYTHONHASHSEED in %s; canonical UUID-free dumps (temporary-label names included) compared; plus 96 insertions of a patch with register / stack / flags constraints (preserve_caller_saved_registers, scratch registers, clobbers, flags, alignment); plus a module without addresses (layout needed) rebuilt with its 4 block objects created in all 24 orders, twice, in-process, and in 3 orders per hash seed" % (stride, kinds or "all", seeds)
-        br.clauses = ["C11/same-result-under-different-hash-seeds", "C11/same-result-whatever-the-object-identities"]
+        br.clauses = ["C11/same-result-under-different-hash-seeds", "C11/same-result-whatever-the-object-identities",
+                      "C11/registration-order-of-modifications-at-different-locations-does-not-matter"]
         results = []
         code = _CHILD % {"root": ROOT, "seed": seed, "kinds": kinds, "stride": stride}
         py = os.path.join(ROOT, ".venv", "bin", "python")
@@ -619,6 +649,34 @@ def c11_bounded(tier, seed):
                 except Exception as ex:       # noqa
                     sig = "EXC %s" % type(ex).__name__
                 sigs.setdefault(sig, []).append(perm)
+        # registration order of modifications that target DIFFERENT locations does not matter (only named-block modifications, and a
+        # mix with a scope-wide one): all permutations of three / four registrations give the same module
+        from bounded import scen as _scen
+        from gtirb_rewriting import AllBlocksScope, BlockPosition
+        for with_scope in (False, True):
+            results = {}
+            # (the scope-wide EXIT insertions land at b0+1, b1+3, b2+1: none of the named offsets below coincides with them)
+            regs = [(0, 0), (1, 1), (2, 0)] + ([("scope",)] if with_scope else [])
+            for perm in itertools.permutations(range(len(regs))):
+                ir_, m_, bi_, blocks_, fl_ = _scen.build(_scen.Shape("plain", True))
+                rc_ = RW.RewritingContext(m_, fl_)
+                for j in perm:
+                    r = regs[j]
+                    if r[0] == "scope":
+                        rc_.register_insert(AllBlocksScope(BlockPosition.EXIT), _scen.mkpatch("jmp .Lq\nnop\n.Lq:"))
+                    else:
+                        rc_.insert_at(blocks_[r[0]], r[1], _scen.mkpatch("jmp .Lskip\nnop\n.Lskip:"))
+                br.cases += 1
+                try:
+                    rc_.apply()
+                    sig = _dump(ir_, drop=())
+                except Exception as ex:       # noqa
+                    sig = "EXC %s" % type(ex).__name__
+                results.setdefault(sig, []).append(perm)
+            if len(results) > 1:
+                br.failures.append({"clause": "C11/registration-order-of-modifications-at-different-locations-does-not-matter",
+                                    "witness": {"registrations": [list(r) for r in regs], "orders giving different results": [list(v[0]) for v in results.values()][:3]},
+                                    "detail": "%d distinct results over %d registration orders (temporary-label names / edges differ)" % (len(results), sum(len(v) for v in results.values()))})
         if len(sigs) > 1:
             br.failures.append({"clause": "C11/same-result-whatever-the-object-identities", "witness": {"creation orders": [v[0] for v in sigs.values()][:3]},
                                 "detail": "%d distinct results for the same unaddressed module and modifications, e.g. %s" % (len(sigs), [k[-120:] for k in list(sigs)[:2]])})
